@@ -71,7 +71,7 @@ pub open spec fn enc_AeadPack(v: AeadPackV) -> Seq<u8> {
         + le32(v.ct.len() as u32) + v.ct
 }
 impl Encoded for AeadPack {
-    open spec fn enc_view(v: AeadPackV) -> Seq<u8> { enc_AeadPack(v) }
+    open spec fn enc_view(v: AeadPackV) -> Seq<u8> { enc_AeadPack(v) } open spec fn enc_valid(v: AeadPackV) -> bool { true }
 }
 
 // ---- plaintext types ------------------------------------------------------------
@@ -92,9 +92,9 @@ pub uninterp spec fn enc_SecretMeta(v: SecretMetaV) -> Seq<u8>;
 pub uninterp spec fn dec_SecretMeta(b: Seq<u8>) -> Option<SecretMetaV>;
 pub uninterp spec fn enc_Secret(v: SecretV) -> Seq<u8>;
 pub uninterp spec fn dec_Secret(b: Seq<u8>) -> Option<SecretV>;
-impl Encoded for SecretMeta { open spec fn enc_view(v: SecretMetaV) -> Seq<u8> { enc_SecretMeta(v) } }
+impl Encoded for SecretMeta { open spec fn enc_view(v: SecretMetaV) -> Seq<u8> { enc_SecretMeta(v) } open spec fn enc_valid(v: SecretMetaV) -> bool { true } }
 impl Decoded for SecretMeta { open spec fn dec_view(b: Seq<u8>) -> Option<SecretMetaV> { dec_SecretMeta(b) } }
-impl Encoded for Secret { open spec fn enc_view(v: SecretV) -> Seq<u8> { enc_Secret(v) } }
+impl Encoded for Secret { open spec fn enc_view(v: SecretV) -> Seq<u8> { enc_Secret(v) } open spec fn enc_valid(v: SecretV) -> bool { true } }
 impl Decoded for Secret { open spec fn dec_view(b: Seq<u8>) -> Option<SecretV> { dec_Secret(b) } }
 /// **Assumption SECRET-RT** (C14 for SecretMeta / Secret, not yet under
 /// contract): what the encoder wrote decodes to the same value.  Not broadcast.
@@ -109,18 +109,18 @@ pub struct VaultMetaV { _p: () }
 impl View for VaultMeta { type V = VaultMetaV; uninterp spec fn view(&self) -> VaultMetaV; }
 pub uninterp spec fn enc_VaultMeta(v: VaultMetaV) -> Seq<u8>;
 pub uninterp spec fn dec_VaultMeta(b: Seq<u8>) -> Option<VaultMetaV>;
-impl Encoded for VaultMeta { open spec fn enc_view(v: VaultMetaV) -> Seq<u8> { enc_VaultMeta(v) } }
+impl Encoded for VaultMeta { open spec fn enc_view(v: VaultMetaV) -> Seq<u8> { enc_VaultMeta(v) } open spec fn enc_valid(v: VaultMetaV) -> bool { true } }
 impl Decoded for VaultMeta { open spec fn dec_view(b: Seq<u8>) -> Option<VaultMetaV> { dec_VaultMeta(b) } }
 
 /// `impl Encodable / Decodable for SharedAccess` (crates/vault/src/encoding/vault.rs)
 pub uninterp spec fn enc_SharedAccess(v: SharedV) -> Seq<u8>;
 pub uninterp spec fn dec_SharedAccess(b: Seq<u8>) -> Option<SharedV>;
-impl Encoded for SharedAccess { open spec fn enc_view(v: SharedV) -> Seq<u8> { enc_SharedAccess(v) } }
+impl Encoded for SharedAccess { open spec fn enc_view(v: SharedV) -> Seq<u8> { enc_SharedAccess(v) } open spec fn enc_valid(v: SharedV) -> bool { true } }
 impl Decoded for SharedAccess { open spec fn dec_view(b: Seq<u8>) -> Option<SharedV> { dec_SharedAccess(b) } }
 
 /// `impl Encodable for Vault` (encoding/vault.rs): header then every row
 pub uninterp spec fn enc_Vault(v: VaultV) -> Seq<u8>;
-impl Encoded for Vault { open spec fn enc_view(v: VaultV) -> Seq<u8> { enc_Vault(v) } }
+impl Encoded for Vault { open spec fn enc_view(v: VaultV) -> Seq<u8> { enc_Vault(v) } open spec fn enc_valid(v: VaultV) -> bool { true } }
 
 impl SharedAccess {
     /// vault.rs:522 `parse_recipients`: `str::parse::<age::x25519::Recipient>` of
